@@ -15,11 +15,37 @@ def glob_escape(name):
     return "".join(c if c.isalnum() else "\\" + c for c in name)
 
 
+def lossy_glob(b):
+    out, wild = "", False
+    for k, part in enumerate(b.decode("utf-8", "replace").split("\ufffd")):
+        if k > 0 and not wild:
+            out += "*"
+            wild = True
+        if part:
+            out += glob_escape(part)
+            wild = False
+    return out or "*"
+
+
 def gen_scenario(r, hostile_p=0.3, ops=None, allow_symlinks=True, for_model=False):
     n_roots = r.choice([1, 1, 2, 2, 3])
     spec, meta = tree.gen_dup_tree(r, n_classes=r.randrange(2, 6), max_members=5, hostile_p=hostile_p if r.random() < 0.6 else 0.0,
                                    n_dirs=r.randrange(0, 5), lens=[1, 3, 100, 4096, 5000, 20000], decoys=r.random() < 0.5,
-                                   roots=n_roots, hardlinks=True, ws_twins=0.3)
+                                   roots=n_roots, hardlinks=True, ws_twins=0.3, prefix_roots=(n_roots >= 2 and r.random() < 0.3))
+    if r.random() < 0.2:
+        # give some files a name that is not valid UTF-8 (name patterns still apply to them, through the lossy form)
+        fl = [e for e in spec["entries"] if e["t"] == "f"]
+        for e in r.sample(fl, min(len(fl), r.randrange(1, 4))):
+            dn, bn = e["p"].rsplit("/", 1)
+            nn = r.choice([bn + fsd(b"\xff"), fsd(b"\xc5") + bn, bn + fsd(b"\xed\xa0\xbd") + "z"])
+            if any(x["p"] == dn + "/" + nn for x in spec["entries"]):
+                continue
+            for h in spec["entries"]:
+                if h["t"] == "h" and h["to"] == e["p"]:
+                    h["to"] = dn + "/" + nn
+            for c in meta["classes"]:
+                c["members"] = [dn + "/" + nn if m == e["p"] else m for m in c["members"]]
+            e["p"] = dn + "/" + nn
     g = {"hash_fn": r.choice(["metro", "blake3", "xxhash"]), "kind": None, "max_prefix": None, "max_suffix": None,
          "threads": None, "cache": None, "transform": None, "match_links": False, "rf": None, "min0": False, "fs": "ext4"}
     if r.random() < 0.2:
@@ -53,7 +79,13 @@ def gen_scenario(r, hostile_p=0.3, ops=None, allow_symlinks=True, for_model=Fals
     names = [os.path.basename(e["p"]) for e in spec["entries"] if e["t"] in "fh"]
     utf_names = [n for n in names if _is_utf8(n)]
 
+    bad_names = [n for n in names if not _is_utf8(n)]
+
     def pick_name_pat():
+        if bad_names and r.random() < 0.5:
+            # a glob for a name that is not valid UTF-8: its valid parts literally, `*` where the bytes are invalid
+            b = fse(r.choice(bad_names))
+            return lossy_glob(b)
         if utf_names and r.random() < 0.4:
             return glob_escape(r.choice(utf_names))
         return r.choice(GLOB_POOL)
